@@ -1,6 +1,7 @@
 package store
 
 import (
+	"bytes"
 	"context"
 	"encoding/binary"
 	"errors"
@@ -85,6 +86,14 @@ func (s *DefaultStore) SaveBlockData(ctx context.Context, header *types.SignedHe
 		return fmt.Errorf("failed to create a new batch: %w", err)
 	}
 
+	// if a different header was stored at this height, drop its now stale hash index entry
+	if old, err := s.GetHeader(ctx, height); err == nil {
+		if oldHash := old.Hash(); !bytes.Equal(oldHash, hash) {
+			if err := batch.Delete(ctx, ds.NewKey(getIndexKey(oldHash))); err != nil {
+				return fmt.Errorf("failed to delete stale index key in batch: %w", err)
+			}
+		}
+	}
 	if err := batch.Put(ctx, ds.NewKey(getHeaderKey(height)), headerBlob); err != nil {
 		return fmt.Errorf("failed to put header blob in batch: %w", err)
 	}
